@@ -244,9 +244,9 @@ structure StaticIn where
   index : Str
   pathInfo : Str
 
-def strGET : Str := "GET".toList
-def strHEAD : Str := "HEAD".toList
-def strGlobal : Str := "global".toList
+def strGET : Str := ['G', 'E', 'T']
+def strHEAD : Str := ['H', 'E', 'A', 'D']
+def strGlobal : Str := ['g', 'l', 'o', 'b', 'a', 'l']
 
 /-- `dir` made absolute with `root` (none = the ValueError branch). -/
 def staticDir (i : StaticIn) : Option Str :=
@@ -290,8 +290,8 @@ def containedCheckStrPrefix (normdir normfile : Str) : Bool := startsWith normfi
 
 /-! ### Part 4: sessions.FileSession -/
 
-def sessionPrefix : Str := "session-".toList
-def lockSuffix : Str := ".lock".toList
+def sessionPrefix : Str := ['s', 'e', 's', 's', 'i', 'o', 'n', '-']
+def lockSuffix : Str := ['.', 'l', 'o', 'c', 'k']
 
 /-- `FileSession.__init__` / `setup`: `storage_path = os.path.abspath(storage_path)`. -/
 def sessionRoot (cwd storage : Str) : Str := abspath cwd storage
